@@ -3,7 +3,7 @@
    one line per operation. *)
 From NV Require Import Base.Util Base.Sexp Base.IntTy Base.FloatBits Base.Float Base.Expr
      Macro.Surface Macro.Ast Macro.Parse Macro.Validate
-     Sem.Guard Sem.Value Sem.Eval Sem.Conv Run.Lib Run.Decode.
+     Sem.Guard Sem.Value Sem.Eval Sem.Conv Spec.GuardSpec Run.Lib Run.Decode.
 Local Open Scope string_scope.
 
 (* placeholders until the Unicode tables are wired in (Run/Unicode*.v) *)
@@ -47,6 +47,11 @@ Definition run_op (d : decl) (op : sexp) : string :=
   | L [A "de"; v] =>
       match dec_opt_value v with Some i => pr_outcome (op_deserialize lib d i) | None => "bad_value" end
   | L [A "default"] => pr_outcome (op_default lib d)
+  | L [A "spec"; v] =>
+      match dec_value v with
+      | Some v => pr_outcome (spec_construct lib d v) ++ " " ++
+                  string_of_bool (comparable d (spec_sanitize lib d v))
+      | None => "bad_value" end
   | _ => "bad_op"
   end.
 
